@@ -38,9 +38,11 @@ P = {
          "1-4 threads call for_each/enumerate_for_each/fold with mixed chunk sizes (1 and >1), optionally racing direct pulls; closure arguments over all threads must cover the source exactly once with correct indices, the iterator must be exhausted when a call returns, and fold results must equal the fold of what each call visited.", "8/C12"),
  "C13": (False, "exploration", "", "", "8/C13", "check under construction (twin-run differential of adaptor vs. underlying iterator)"),
  "C14": (False, "", "", "", "8/C14", "compile-time accept/reject verdicts on client programs have no schedule, fault, time or history dimension; nothing for a simulator to execute (see DESIGN.md 8/C14)"),
- "C15": (False, "exploration", "", "", "8/C15", "check under construction (scoped allocation ledger)"),
+ "C15": (True, "exploration", "deterministic simulation with a counting global allocator: scoped allocation ledger must be empty after every run",
+         "The simulator binary installs a counting #[global_allocator]; every block allocated while building the consumed source or inside a call into the crate is entered in a ledger, every deallocation removes its block. After a run (consuming kinds, element payloads of 0/8/24/4096 heap bytes, all histories incl. partial chunks, skip, stop, into_seq_iter(take m), concurrent use) has dropped everything, the ledger must be empty; since consecutive runs share the process, an empty ledger after each run also means no growth under repetition.", "8/C15"),
  "C16": (False, "fault_enumeration", "", "", "8/C16", "check under construction (boundary grid)"),
- "C17": (False, "exploration", "", "", "8/C17", "check under construction (two-build differential)"),
+ "C17": (True, "exploration", "deterministic simulation executed by two differently compiled simulator binaries on identical seeds; transcripts and event-log hashes compared run by run",
+         "Determinism makes two binaries comparable: the simulator (and with it the crate, a path dependency) is built once without and once with debug assertions + overflow checks; both execute the same run indices and the parent compares per-run event-log hash and transcript hash (results, indices, lens, ledger, allocator summary, panic messages); a build that aborts is a violation.", "8/C17"),
  "C18": (True, "fault_enumeration", "deterministic simulation with panic injection at every crash point k (wrapped next / clone / closure) under seeded schedules",
          "For len <= 6 the panic is injected at the k-th call of the wrapped iterator's next, of Clone, or of the user closure, for every k in 0..=len+1 (drawn uniformly, so every crash point of every site is visited thousands of times), with 2-3 threads and sampled schedules. Others must return (no deadlock verdict), no duplicate delivery, drop ledger exact.", "8/C18"),
  "C19": (False, "exploration", "", "", "8/C19", "check under construction (several iterators over one collection)"),
